@@ -38,6 +38,7 @@ TNW == Is("NW") /\ (IF Wild THEN Upd(Ev.c + 1, Cur) ELSE Upd(Ev.c + 1, NWStep(Cu
 TWR == Is("WR") /\ (IF Wild THEN Upd(Ev.c + 1, Cur) ELSE Upd(Ev.c + 1, WRStep(Cur, Ev.n, Ev.ret, Ev.err, Ev.tx)))
 TCL == Is("CL") /\ (IF Wild THEN Upd(Ev.c + 1, Cur) ELSE Upd(Ev.c + 1, CLStep(Cur, Ev.err, Ev.tx)))
 TWM == (Is("WM") \/ Is("WJ")) /\ (IF Wild THEN Upd(Ev.c + 1, Cur) ELSE Upd(Ev.c + 1, WMStep(Cur, Ev.type, Ev.n, Ev.m, Ev.err, Ev.tx)))
+TWJB == Is("WJB") /\ (IF Wild THEN Upd(Ev.c + 1, Cur) ELSE Upd(Ev.c + 1, WJBStep(Cur, Ev.m, Ev.err, Ev.tx)))
 TWC == Is("WC") /\ (IF Wild THEN Upd(Ev.c + 1, Cur) ELSE Upd(Ev.c + 1, WCStep(Cur, Ev.type, Ev.n, Ev.dl, Ev.m, Ev.err, Ev.tx)))
 TWP == Is("WP") /\ (IF Wild THEN Upd(Ev.c + 1, Cur) ELSE Upd(Ev.c + 1, WPStep(Cur, Ev.pm, Ev.err, Ev.tx)))
 (* Close() closes the transport; it neither writes nor touches the buffer pool (C20) *)
@@ -52,7 +53,7 @@ TEnd == /\ Is("END") /\ (cs[Ev.c + 1].err = "fatal" \/ cs[Ev.c + 1].wild)      \
         /\ UNCHANGED << cs, pms >> /\ Adv
 
 TInit == l = 1 /\ cs = << >> /\ pms = << >>
-TNext == TReset \/ TEnd \/ TPMNew \/ TNW \/ TWR \/ TCL \/ TWM \/ TWC \/ TWP \/ TSD \/ TXC \/ TEC \/ TSL
+TNext == TReset \/ TEnd \/ TPMNew \/ TNW \/ TWR \/ TCL \/ TWM \/ TWJB \/ TWC \/ TWP \/ TSD \/ TXC \/ TEC \/ TSL
 TSpec == TInit /\ [][TNext]_tvars
 
 Accepted ==
